@@ -33,120 +33,134 @@ func sfxText(s string) string {
 	return hx([]byte(s))
 }
 
-// (a) SDK writes → reference reads.  Per case: `case`, one `row` line per metastore row (the JSON
-// the SDK stores for it), one `chain` line per data row record.
+// (a) SDK writes → reference reads.  Per case: `case <i> <seed>`, one `row` line per metastore row (the
+// JSON the SDK stores for it), one `chain` line per data row record.  Every case draws from its own
+// PRNG derived from (seed, i) — including the crypto/rand source the SDK sees — so that
+// `case <i> <seed>` alone regenerates it (replay).
 func chainCases(rng *prng.R, n int) {
 	fmt.Fprintln(out, "# chain: SDK writes (static KMS, memory metastore, AES256GCM); the reference decoder must recover every payload")
-	ctx := context.Background()
-	big := 0
+	base := rng.U64() >> 1
 	for i := 0; i < n; i++ {
-		master := rng.Bytes(32)
-		svc, prod := genName(rng), genName(rng)
-		suffix := ""
-		if rng.Intn(3) == 0 {
-			suffix = []string{"us-west-2", "eu-central-1", "x"}[rng.Intn(3)]
+		chainCase(base, i)
+	}
+}
+
+func chainCase(base uint64, i int) {
+	rng := prng.New(base*1000003 + uint64(i))
+	saved := randSrc.rng
+	randSrc.rng = prng.New(base*7919 + uint64(i) + 0x5eed)
+	defer func() { randSrc.rng = saved }()
+	ctx := context.Background()
+	master := rng.Bytes(32)
+	svc, prod := genName(rng), genName(rng)
+	suffix := ""
+	if rng.Intn(3) == 0 {
+		suffix = []string{"us-west-2", "eu-central-1", "x"}[rng.Intn(3)]
+	}
+	func() {
+		defer func() {
+			if e := recover(); e != nil {
+				emit(fmt.Sprintf("chain-panic %d", i), fmt.Sprint(e))
+			}
+		}()
+		km, err := kms.NewStatic(string(master), crypto)
+		if err != nil {
+			emit("chain-setup", "err:"+err.Error())
+			return
 		}
-		func() {
-			defer func() {
-				if e := recover(); e != nil {
-					emit(fmt.Sprintf("chain-panic %d", i), fmt.Sprint(e))
-				}
-			}()
-			km, err := kms.NewStatic(string(master), crypto)
+		defer km.Close()
+		mem := persistence.NewMemoryMetastore()
+		var store appencryption.Metastore = mem
+		if suffix != "" {
+			store = suffixed{mem, suffix}
+		}
+		var popts []appencryption.PolicyOption
+		if rng.Intn(3) == 0 {
+			popts = append(popts, appencryption.WithNoCache())
+		}
+		factory := appencryption.NewSessionFactory(&appencryption.Config{Service: svc, Product: prod,
+			Policy: appencryption.NewCryptoPolicy(popts...)}, store, km, crypto)
+		defer factory.Close()
+		type rec struct {
+			part    string
+			payload []byte
+			drr     *appencryption.DataRowRecord
+		}
+		var recs []rec
+		nparts := 1 + rng.Intn(2)
+		for p := 0; p < nparts; p++ {
+			part := genName(rng)
+			sess, err := factory.GetSession(part)
 			if err != nil {
 				emit("chain-setup", "err:"+err.Error())
 				return
 			}
-			defer km.Close()
-			mem := persistence.NewMemoryMetastore()
-			var store appencryption.Metastore = mem
-			if suffix != "" {
-				store = suffixed{mem, suffix}
-			}
-			var popts []appencryption.PolicyOption
-			if rng.Intn(3) == 0 {
-				popts = append(popts, appencryption.WithNoCache())
-			}
-			factory := appencryption.NewSessionFactory(&appencryption.Config{Service: svc, Product: prod,
-				Policy: appencryption.NewCryptoPolicy(popts...)}, store, km, crypto)
-			defer factory.Close()
-			type rec struct {
-				part    string
-				payload []byte
-				drr     *appencryption.DataRowRecord
-			}
-			var recs []rec
-			nparts := 1 + rng.Intn(2)
-			for p := 0; p < nparts; p++ {
-				part := genName(rng)
-				sess, err := factory.GetSession(part)
+			for k := 0; k < 1+rng.Intn(2); k++ {
+				l := payloadLen(rng)
+				if i%61 == 60 && i < 190 && k == 0 && p == 0 {
+					l = 65536 + rng.Intn(3)
+				}
+				payload := rng.Bytes(l)
+				before := append([]byte(nil), payload...)
+				drr, err := sess.Encrypt(ctx, payload)
 				if err != nil {
-					emit("chain-setup", "err:"+err.Error())
-					return
+					emit("chain-encrypt", "err:"+err.Error())
+					continue
 				}
-				for k := 0; k < 1+rng.Intn(2); k++ {
-					l := payloadLen(rng)
-					if i%61 == 60 && big < 3 && k == 0 && p == 0 {
-						l = 65536 + rng.Intn(3)
-						big++
-					}
-					payload := rng.Bytes(l)
-					before := append([]byte(nil), payload...)
-					drr, err := sess.Encrypt(ctx, payload)
-					if err != nil {
-						emit("chain-encrypt", "err:"+err.Error())
-						continue
-					}
-					if string(before) != string(payload) {
-						emit("chain-encrypt", "caller-buffer-modified")
-					}
-					recs = append(recs, rec{part, before, drr})
+				if string(before) != string(payload) {
+					emit("chain-encrypt", "caller-buffer-modified")
 				}
-				sess.Close()
+				recs = append(recs, rec{part, before, drr})
 			}
-			// sometimes flip Revoked on stored rows afterwards (what a revocation job does): the
-			// stored JSON then carries "Revoked":true and everything must still decrypt
-			if rng.Intn(3) == 0 {
-				for _, m := range mem.Envelopes {
-					for _, e := range m {
-						if rng.Bool() {
-							e.Revoked = true
-						}
-					}
-				}
-			}
-			fmt.Fprintf(out, "case %d\n", i)
+			sess.Close()
+		}
+		// sometimes flip Revoked on stored rows afterwards (what a revocation job does): the
+		// stored JSON then carries "Revoked":true and everything must still decrypt
+		if rng.Intn(3) == 0 {
 			var ids []string
 			for id := range mem.Envelopes {
 				ids = append(ids, id)
 			}
 			sort.Strings(ids)
 			for _, id := range ids {
-				var cs []int64
-				for c := range mem.Envelopes[id] {
-					cs = append(cs, c)
-				}
-				sort.Slice(cs, func(a, b int) bool { return cs[a] < cs[b] })
-				for _, c := range cs {
-					js, err := json.Marshal(mem.Envelopes[id][c])
-					if err != nil {
-						emit("chain-row", "err:"+err.Error())
-						continue
+				for _, e := range mem.Envelopes[id] {
+					if rng.Bool() {
+						e.Revoked = true
 					}
-					fmt.Fprintf(out, "row %s %d %s\n", hx([]byte(id)), c, hx(js))
 				}
 			}
-			for _, r := range recs {
-				js, err := json.Marshal(r.drr)
+		}
+		fmt.Fprintf(out, "case %d %d\n", i, base)
+		var ids []string
+		for id := range mem.Envelopes {
+			ids = append(ids, id)
+		}
+		sort.Strings(ids)
+		for _, id := range ids {
+			var cs []int64
+			for c := range mem.Envelopes[id] {
+				cs = append(cs, c)
+			}
+			sort.Slice(cs, func(a, b int) bool { return cs[a] < cs[b] })
+			for _, c := range cs {
+				js, err := json.Marshal(mem.Envelopes[id][c])
 				if err != nil {
-					emit("chain-drr", "err:"+err.Error())
+					emit("chain-row", "err:"+err.Error())
 					continue
 				}
-				emit(fmt.Sprintf("chain %s %s %s %s %s %s", hx(master), hx([]byte(r.part)), hx([]byte(svc)), hx([]byte(prod)),
-					sfxText(suffix), hx(js)), "ok:"+hx(r.payload))
+				fmt.Fprintf(out, "row %s %d %s\n", hx([]byte(id)), c, hx(js))
 			}
-		}()
-	}
+		}
+		for _, r := range recs {
+			js, err := json.Marshal(r.drr)
+			if err != nil {
+				emit("chain-drr", "err:"+err.Error())
+				continue
+			}
+			emit(fmt.Sprintf("chain %s %s %s %s %s %s", hx(master), hx([]byte(r.part)), hx([]byte(svc)), hx([]byte(prod)),
+				sfxText(suffix), hx(js)), "ok:"+hx(r.payload))
+		}
+	}()
 }
 
 // (b) pass 1: requests for the reference ENCODER with all randomness chosen here.
